@@ -144,7 +144,11 @@ def run(ck, prog):
               found={L: str(comp[L]) for L in LETTERS if comp[L] != cmap[L]} or "identical", slot="kappa==kappa_X(ED,KR)", where=h.loc(),
               note="with kappa depending on the sequence only through its charge pattern (C05) this gives get_kappa() == get_kappa_X(['E','D'],['K','R'])")
     # validation of both groups
-    for bad, why in (["E", "X"], "non-amino-acid"), (["E", "1"], "digit"), (["E", "b"], "lower-case non-amino-acid"), ([5, "E"], "non-string member"):
+    from lcsa import tab as _tab
+    order = list(_tab.global_literal(prog, _tab.AA, "TWENTY_AAs"))
+    run2 = order[0] + order[1] if len(order) >= 2 else "RH"
+    for bad, why in (["E", "X"], "non-amino-acid"), (["E", "1"], "digit"), (["E", "b"], "lower-case non-amino-acid"), ([5, "E"], "non-string member"), \
+            (["E", ""], "empty-string member"), (["E", run2], "two-letter member (neighbours in the residue list)"), (["E", "".join(order)], "member made of all twenty letters"):
         ra = recoded(prog, "kappa_X", {"grp1": bad})
         ck.ob("DT-validate", c3, ra[0] == "raise", expected="group 1 with a %s rejected" % why, found=ra[0], slot="grp1:" + why, where=h.loc())
         rb = recoded(prog, "kappa_X", {"grp1": ["E", "D"], "grp2": bad})
